@@ -219,8 +219,10 @@ Definition steps_of (v : val) : option (list (list N * Z)) :=
 Definition whole_of (v : val) : option (list N * Z) :=
   match v with VL [VB b; VI _; VI st] => Some (b, st) | _ => None end.
 
-Definition check_C15_w (wf : option (nat * Z)) (chunks : list (list N)) (steps : list (list N * Z)) (wb : list N) (wst : Z) : N :=
-  let s := concat chunks in
+(* [all]: the bytes whose delivery in one read gave [wb] (for a connection the whole stream the client
+   sent or meant to send; the reads may stop earlier when the connection was closed) *)
+Definition check_C15_w (wf : option (nat * Z)) (all : list N) (chunks : list (list N)) (steps : list (list N * Z)) (wb : list N) (wst : Z) : N :=
+  let s := all in
   let (frames, tl) := frames_of s in
   if existsb may_panic frames || existsb one_byte_pdu frames then NOT_JUDGED else
   match adus_of wb with
@@ -262,7 +264,7 @@ Definition check_C15_w (wf : option (nat * Z)) (chunks : list (list N)) (steps :
       if negb closed_at_end && negb (length steps =? length chunks)%nat then VIOLATES else HOLDS
   end.
 
-Definition check_C15 := check_C15_w None.
+Definition check_C15 (chunks : list (list N)) := check_C15_w None (concat chunks) chunks.
 
 Definition verdict_asm_C15 (a : list val) (out : val) : N :=
   match a, out with
@@ -293,7 +295,7 @@ Definition verdict_conn_C15 (a : list val) (out : val) : N :=
       | Some reads, Some steps, Some (wb, wst) =>
           (* the server must have read the whole stream unless it closed the connection *)
           if Z.eqb st 0 && negb (list_eqb (concat reads) stream) then VIOLATES else
-          check_C15 reads steps wb wst
+          check_C15_w None stream reads steps wb wst
       | _, _, _ => VIOLATES
       end
   | [VI m; VI _; rv; VB stream; wv], VL [cums; VI st; VI _; wo] =>
@@ -301,7 +303,7 @@ Definition verdict_conn_C15 (a : list val) (out : val) : N :=
       match chunks_of rv, conn_steps cums (closed_code st), whole_of wo, wfail_of wv with
       | Some reads, Some steps, Some (wb, wst), Some wf =>
           if Z.eqb st 0 && negb (list_eqb (concat reads) stream) then VIOLATES else
-          check_C15_w (Some wf) reads steps wb wst
+          check_C15_w (Some wf) stream reads steps wb wst
       | _, _, _, _ => VIOLATES
       end
   | _, _ => NOT_JUDGED
